@@ -4,9 +4,9 @@ import sys, os
 sys.path.insert(0, os.path.dirname(os.path.abspath(__file__)))
 import vf, swprop
 vf.main_wrapper(lambda: swprop.run(
-    "C09", ["ScanWalk-F9a-trav.cfg", "ScanWalk-F9b-file.cfg", "ScanWalk-F9c-gi.cfg"], ["ScanWalk-F9-fault2-t.cfg", "ScanWalk-F9-fault1-t.cfg"], [],
+    "C09", ["ScanWalk-F9a-trav.cfg", "ScanWalk-F9b-file.cfg", "ScanWalk-F9c-gi.cfg", "ScanWalk-F9d-paths.cfg"], ["ScanWalk-F9-fault2-t.cfg", "ScanWalk-F9-fault1-t.cfg"], [],
     ["stream/plain", "fallback/nasty"],
-    "every single fault (thorough: every pair) over the sites stat-root, open-dir, k-th directory entry, open file, fstat, lazy stat, read, open .gitignore "
+    "every single fault (thorough: every pair) over the sites stat-root, stat of a requested path (a path that does not exist, before or after other requested paths), open-dir, k-th directory entry, open file, fstat, lazy stat, read, open .gitignore "
     "of every tree (<= 4 nodes) x fatal-on-error on/off x size limit on/off x gitignore on/off x two listing orders, permission and non-permission error kinds "
     "alternating; the in-memory FS injects the fault, scalibr.Scan runs under recover; non-trivial = a fault site that the walk actually reaches or an Extract expected",
     ["faults on explicitly requested paths' initial stat", "lazy-stat and .gitignore-open faults together with fatal-on-error (whether they count as traversal failures is unspecified)",
